@@ -131,50 +131,66 @@ func runCase(c *Case) *Result {
 	res.FaultFree = f.Error+f.Panic+f.Slow+f.Reenter+f.Abort+f.Goexit == 0
 	zzsim.SetMapSalt(c.MapSalt)
 
-	// ---- sequential reference ----
-	zzsim.SetMode(zzsim.ModeOff)
-	ref := buildWorld(c, nil, true)
-	ref.rs.solo = true
-	wantRaw := newRaw(c)
+	var ref, sh *World
+	var wantRaw, gotRaw [][]lazyOut
 	var solo uint64
-	for t := range c.Tasks {
-		ref.rs.soloTask = t
-		zzsim.SetMode(zzsim.ModeCount)
-		done := make(chan struct{})
-		prog := ref.program(t, wantRaw)
-		go func() {
-			defer close(done)
-			prog()
-		}()
-		<-done
-		solo += zzsim.Steps()
-		zzsim.SetMode(zzsim.ModeOff)
-	}
-	res.SoloSteps = solo
-
-	// ---- simulated concurrent phase on one shared world ----
+	var st zzsim.Stats
 	raceBefore := raceLogSize()
-	sh := buildWorld(c, ref.cat, c.Pretouch)
+
+	reference := func() {
+		zzsim.SetMode(zzsim.ModeOff)
+		ref = buildWorld(c, nil, true)
+		ref.rs.solo = true
+		wantRaw = newRaw(c)
+		for t := range c.Tasks {
+			ref.rs.soloTask = t
+			zzsim.SetMode(zzsim.ModeCount)
+			done := make(chan struct{})
+			prog := ref.program(t, wantRaw)
+			go func() {
+				defer close(done)
+				prog()
+			}()
+			<-done
+			solo += zzsim.Steps()
+			zzsim.SetMode(zzsim.ModeOff)
+		}
+		res.SoloSteps = solo
+	}
+	concurrent := func(cat *catalog, est uint64) {
+		zzsim.SetMode(zzsim.ModeOff)
+		sh = buildWorld(c, cat, c.Pretouch)
+		gotRaw = newRaw(c)
+		fns := make([]func(), len(c.Tasks))
+		var wg sync.WaitGroup
+		for t := range c.Tasks {
+			prog := sh.program(t, gotRaw)
+			wg.Add(1)
+			fns[t] = func() {
+				defer wg.Done()
+				prog()
+			}
+		}
+		cfg := schedConfig(c, est)
+		st = zzsim.Run(cfg, fns)
+		wg.Wait()
+		res.Stats = st
+	}
+
+	if c.ConcFirst {
+		// simulated concurrent phase first: nothing in this process has used
+		// the library's process-global state for these operations yet
+		concurrent(emptyCatalog, 40000)
+		reference()
+	} else {
+		reference()
+		concurrent(ref.cat, solo)
+	}
 	if sh.setupDiag != ref.setupDiag {
 		res.Verdict = "internal"
 		res.Detail = "setup diagnostics differ between two parses of the same sources"
 		return res
 	}
-	gotRaw := newRaw(c)
-	fns := make([]func(), len(c.Tasks))
-	var wg sync.WaitGroup
-	for t := range c.Tasks {
-		prog := sh.program(t, gotRaw)
-		wg.Add(1)
-		fns[t] = func() {
-			defer wg.Done()
-			prog()
-		}
-	}
-	cfg := schedConfig(c, solo)
-	st := zzsim.Run(cfg, fns)
-	wg.Wait()
-	res.Stats = st
 
 	// ---- oracle ----
 	want, got := render(wantRaw), render(gotRaw)
